@@ -152,3 +152,140 @@ Print Assumptions C08_handlers_respect_flag_protocol.
 Theorem C08_stopping_rules_are : stopping_rules = expected_stopping_rules.   (* camelcase, require-await *)
 Proof. exact stopping_rules_are. Qed.
 Print Assumptions C08_stopping_rules_are.
+
+(* ---- rules that walk UP the tree to the nearest function boundary (Traverse/AncestorWalk.v; table coq/Gen/AncestorWalks.v
+   regenerated from the sources on this run).  Imported here, after the theorems above, so that its short names
+   (walk, chain, kind ...) shadow nothing they use. *)
+From V Require Import Gen.AncestorWalks Traverse.AncestorWalk.
+
+(* the walk itself: a boundary set that meets the chain of every construct of R never leaves a construct of R, whatever
+   lies between the occurrence and the construct (inner) and whatever encloses it (outer) *)
+Theorem C08_walk_never_escapes : forall b R, covers b R = true -> forall c, In c R -> forall inner outer,
+  exists n k, stop_index b (inner ++ chain c ++ outer) = Some n /\ (n < length inner + length (chain c))%nat /\
+              walk b (inner ++ chain c ++ outer) = Some k /\
+              walk b (inner ++ chain c ++ outer) = walk b (inner ++ chain c).
+Proof. exact walk_never_escapes. Qed.
+Print Assumptions C08_walk_never_escapes.
+
+Theorem C08_walk_stops_inside : forall b R, covers b R = true -> forall c, In c R -> forall inner outer,
+  existsb b inner = false ->
+  exists k, In k (chain c) /\ b k = true /\ walk b (chain c) = Some k /\ walk b (inner ++ chain c ++ outer) = Some k.
+Proof. exact walk_stops_inside. Qed.
+Print Assumptions C08_walk_stops_inside.
+
+(* the hypothesis is needed: if the whole chain of one construct of R is missed, the enclosing code decides -- the same
+   occurrence in the same construct gets no answer in one program and the answer of an outer boundary in another *)
+Theorem C08_missed_construct_escapes : forall b R, covers b R = false ->
+  exists c, In c R /\
+    (forall inner outer, existsb b inner = false -> walk b (inner ++ chain c ++ outer) = walk b outer) /\
+    walk b (chain c ++ []) = None /\
+    (forall k, b k = true -> walk b (chain c ++ [k]) = Some k /\ ~ In k (chain c)).
+Proof. exact missed_construct_escapes. Qed.
+Print Assumptions C08_missed_construct_escapes.
+
+(* every ancestor walk of the sources was read and classified, and is textually unchanged since *)
+Theorem C08_all_ancestor_walks_classified_and_pinned :
+  forallb (fun w => aw_pinned w && negb (is_unclassified w)) ancestor_walks = true /\ vanished_walks = [].
+Proof. exact all_walks_classified_and_pinned. Qed.
+Print Assumptions C08_all_ancestor_walks_classified_and_pinned.
+
+(* THE obligation: the function-like kinds each function-boundary walk mentions meet the chain of every construct the
+   rule is required to stop at *)
+Theorem C08_ancestor_walks_stop_at_every_function_kind :
+  forallb (fun w => names_resolve w && forallb (fun c => existsb (boundary_of_walk w) (chain c)) (required w))
+          function_boundary_walks = true.
+Proof. exact function_boundary_walks_cover. Qed.
+Print Assumptions C08_ancestor_walks_stop_at_every_function_kind.
+
+(* `required` = the whole category of the rule (async / function-root / this / return) minus the known gaps AW-1, AW-2 *)
+Theorem C08_ancestor_walks_required_is_category_minus_known_gaps :
+  forallb (fun w => match category_constructs (category_of w) with
+                    | Some cs => forallb (fun c => cmem c (required w) || gap_mem (aw_rule w) c) cs
+                    | None => false
+                    end) function_boundary_walks = true.
+Proof. exact required_is_category_minus_known_gaps. Qed.
+Print Assumptions C08_ancestor_walks_required_is_category_minus_known_gaps.
+
+Theorem C08_function_boundary_rules_are : function_boundary_rules = expected_function_boundary_rules.
+Proof. exact function_boundary_rules_are. Qed.
+Print Assumptions C08_function_boundary_rules_are.
+
+(* spec form: for every rule, every function-boundary walk of it, every construct of the rule's category that is not a
+   known gap and every path through it whose inner part holds no boundary, the walk stops at a node of the construct --
+   the same node whatever the enclosing code *)
+Theorem C08_ancestor_walks_stop_at_every_function_kind_spec : forall rule w cs c inner,
+  In w ancestor_walks -> aw_rule w = rule -> is_function_boundary w = true ->
+  category_constructs (category_of w) = Some cs -> In c cs -> gap_mem rule c = false ->
+  existsb (boundary_of_walk w) inner = false ->
+  exists k, In k (chain c) /\ boundary_of_walk w k = true /\
+            forall outer, walk (boundary_of_walk w) (inner ++ chain c ++ outer) = Some k.
+Proof. exact ancestor_walks_stop_at_every_function_kind_spec. Qed.
+Print Assumptions C08_ancestor_walks_stop_at_every_function_kind_spec.
+
+(* ... and with an arbitrary inner part (nested functions included): the walk stops before it leaves the construct *)
+Theorem C08_ancestor_walks_never_escape : forall w c inner outer,
+  In w ancestor_walks -> is_function_boundary w = true -> In c (required w) ->
+  exists n k, stop_index (boundary_of_walk w) (inner ++ chain c ++ outer) = Some n /\
+              (n < length inner + length (chain c))%nat /\
+              walk (boundary_of_walk w) (inner ++ chain c ++ outer) = Some k /\
+              walk (boundary_of_walk w) (inner ++ chain c ++ outer) = walk (boundary_of_walk w) (inner ++ chain c).
+Proof. exact ancestor_walks_never_escape. Qed.
+Print Assumptions C08_ancestor_walks_never_escape.
+
+(* the chains are the parent structure of the view, and the list of function-like kinds misses none of its owners of a
+   Function / BlockStmt, class members or object-literal properties *)
+Theorem C08_ancestor_chains_follow_view :
+  view_found = true /\ forallb (fun c => linked (entry c) (chain c)) all_constructs = true.
+Proof. exact chains_follow_view. Qed.
+Print Assumptions C08_ancestor_chains_follow_view.
+
+Theorem C08_function_like_kinds_complete :
+  forallb (fun k => mem k chain_tops) view_function_owners = true /\
+  forallb (accounted block_owners_that_are_statements) view_block_owners = true /\
+  forallb (fun k => mem k chain_tops || mem k class_members_without_code) view_class_members = true /\
+  forallb (fun k => mem k chain_tops || mem k object_props_without_body) view_object_props = true /\
+  forallb (fun k => mem k function_like_kinds) chain_tops = true /\
+  forallb (fun k => mem k chain_tops || str_eqb k kFunction) function_like_kinds = true.
+Proof. exact function_like_kinds_complete. Qed.
+Print Assumptions C08_function_like_kinds_complete.
+
+(* non-vacuity: a concrete rule, construct and path -- `await x` in a loop of an object-literal method that sits in a loop
+   of an async function; no-top-level-await stops at the MethodProp after 5 parent steps (the repair of bdd2d16) *)
+Theorem C08_ancestor_walk_example_no_top_level_await :
+  option_map (fun w => (cmem CObjectMethod (required w),
+                        walk (boundary_of_walk w) (example_inner ++ chain CObjectMethod ++ example_outer),
+                        stop_index (boundary_of_walk w) (example_inner ++ chain CObjectMethod ++ example_outer)))
+             no_top_level_await_walk
+  = Some (true, Some kMethodProp, Some 5%nat).
+Proof. exact no_top_level_await_stops_at_the_object_method. Qed.
+Print Assumptions C08_ancestor_walk_example_no_top_level_await.
+
+(* the boundary set of no-this-before-super BEFORE cec743a, {Function, ArrowExpr}, fails the obligation for the constructor
+   (and six more this-binding constructs): `this` in the constructor of a class nested in a function expression is attributed
+   to that function expression, 7 parent steps up instead of at most 4, and in general to whatever encloses the constructor *)
+Theorem C08_ancestor_walks_refuted_before_fixes :
+  hits no_this_before_super_boundary_before_cec743a CConstructor = false /\
+  (match category_constructs this_category with
+   | Some cs => (covers no_this_before_super_boundary_before_cec743a cs,
+                 filter (fun c => negb (hits no_this_before_super_boundary_before_cec743a c)) cs)
+   | None => (true, [])
+   end) = (false, [CObjectGetter; CObjectSetter; CConstructor; CStaticBlock; CClassField; CPrivateField; CAutoAccessor]) /\
+  walk no_this_before_super_boundary_before_cec743a
+       (nested_ctor_inner ++ chain CConstructor ++ nested_ctor_outer)
+    = Some kFunction /\
+  stop_index no_this_before_super_boundary_before_cec743a
+       (nested_ctor_inner ++ chain CConstructor ++ nested_ctor_outer)
+    = Some 7%nat /\
+  (forall outer, walk no_this_before_super_boundary_before_cec743a (nested_ctor_inner ++ chain CConstructor ++ outer)
+                 = walk no_this_before_super_boundary_before_cec743a outer).
+Proof. exact no_this_before_super_refuted_before_fixes. Qed.
+Print Assumptions C08_ancestor_walks_refuted_before_fixes.
+
+(* today's walk of the same rule, same path: stops at the Constructor *)
+Theorem C08_ancestor_walk_example_no_this_before_super_today :
+  option_map (fun w => (hits (boundary_of_walk w) CConstructor,
+                        walk (boundary_of_walk w) (nested_ctor_inner ++ chain CConstructor ++ nested_ctor_outer)))
+             no_this_before_super_walk
+  = Some (true, Some kConstructor).
+Proof. exact no_this_before_super_today. Qed.
+Print Assumptions C08_ancestor_walk_example_no_this_before_super_today.
